@@ -99,6 +99,9 @@ pub fn junk_line(r: &mut Rng, kind: u64) -> (Vec<u8>, &'static str) {
 pub fn run(ctx: &Ctx) -> Vec<Report> {
     let mut v = run_plain(ctx);
     v.push(run_sweep_sensitive(ctx));
+    if let Some(r) = run_tcp(ctx) {
+        v.push(r);
+    }
     v
 }
 
@@ -348,4 +351,77 @@ fn run_sweep_sensitive(ctx: &Ctx) -> Report {
         rep.violation("junk-moved-the-sweep", kinds.join("+"), format!("{} expired rows preloaded, {} accepted lines + junk {:?} (delete_after {}): table differs from the table of the accepted lines alone: {}", nold, len, kinds, opts.delete_after, diffs.join(" | ")), script);
     }
     rep
+}
+
+/// TCP source: the built CLI reads the junk-laden stream from a loopback server (one connection that stays
+/// open); its last refresh must equal the last refresh of the same binary reading the *clean* stream from a file.
+fn run_tcp(ctx: &Ctx) -> Option<Report> {
+    use super::c18::{case_script, run_case, Case, Outcome};
+    let cli = ctx.cli.clone()?;
+    let mut rep = Report::new("C13", "junk-lines-over-tcp");
+    let mut r = ctx.rng("c13tcp");
+    let n = ctx.share(ctx.n(32, 640));
+    for k in 0..n {
+        let addrs: Vec<u32> = (0..(2 + r.below(5))).map(|_| r.addr()).collect();
+        let mut clean: Vec<Vec<u8>> = Vec::new();
+        for a in &addrs {
+            if r.chance(1, 2) {
+                clean.extend(super::common::rich_history(&mut r, *a).iter().map(|f| f.hex().into_bytes()));
+            }
+        }
+        for _ in 0..(10 + r.below(40)) {
+            let a = *r.pick(&addrs);
+            clean.push(rand_frame(&mut r, a).hex().into_bytes());
+        }
+        r.shuffle(&mut clean);
+        clean.push(df11(0xCA0000 | r.bits(16) as u32, 5, 0).hex().into_bytes());
+        let mut dirty: Vec<Vec<u8>> = clean.clone();
+        let mut kinds = Vec::new();
+        for j in 0..(1 + r.below(8)) {
+            let kind = *r.pick(&[0u64, 1, 2, 3, 4, 5, 6, 7, 8, 9, 11]);
+            let (jl, name) = junk_line(&mut r, kind);
+            let pos = if j == 0 { 0 } else { r.below(dirty.len() as u64) as usize }; // never after the canary
+            dirty.insert(pos, jl);
+            kinds.push(name);
+        }
+        let mut clean_bytes = Vec::new();
+        for l in &clean {
+            clean_bytes.extend_from_slice(l);
+            clean_bytes.push(b'\n');
+        }
+        let mut opts = Vec::new();
+        if k % 2 == 1 {
+            opts.push("-U".to_string());
+        }
+        let case = Case { reference_bytes: Some(clean_bytes), holds: vec![], phases: vec![], healthy: dirty.clone(), opts };
+        let port = 18000 + (ctx.shard as u16) * 100 + (k % 100) as u16;
+        let mut log = Vec::new();
+        let mut out = run_case(&cli, port, &case, &mut log);
+        if matches!(out, Outcome::Inconclusive(_)) {
+            log.clear();
+            out = run_case(&cli, port, &case, &mut log);
+        }
+        for kd in &kinds {
+            rep.class(kd);
+        }
+        match out {
+            Outcome::Held { rows, .. } => {
+                rep.eval(Some(&dirty.concat()[..dirty.concat().len().min(4096)]));
+                rep.count("tcp_runs", 1);
+                rep.count("junk_lines", kinds.len() as i64);
+                rep.count("rows_in_final_tables_compared", rows as i64);
+                if rep.want_sample() {
+                    rep.sample(J::obj().with("source", J::s("tcp")).with("clean_lines", J::i(clean.len() as u64)).with("junk_kinds", J::arr_s(&kinds)).with("final_table_rows", J::i(rows as u64)).with("equal_to_file_run_of_clean_stream", J::Bool(true)));
+                }
+            }
+            Outcome::Violation(class, detail) => {
+                rep.eval(Some(&dirty.concat()[..dirty.concat().len().min(4096)]));
+                let mut script = case_script(port, "", &case);
+                script.push(format!("note junk kinds {:?}; the reference is the file run of the clean stream", kinds));
+                rep.violation(&format!("tcp-{}", class), kinds.join("+"), format!("junk {:?} over TCP: {}", kinds, detail), script);
+            }
+            Outcome::Inconclusive(why) => rep.inconclusive(why),
+        }
+    }
+    Some(rep)
 }
